@@ -1,4 +1,5 @@
 import Keto.Model.Engine
+import Keto.Spec.Calls
 import Keto.Spec.Membership
 import Keto.Spec.Fuel
 import Keto.Spec.WellFormed
@@ -155,6 +156,8 @@ def handleEngine (toks : List String) : String :=
     let nodes := (c.tuples.length + 2) * (size + c.tuples.length + 2)
     let rfuel := nodes * (size + 3) + 16
     let ref := refEval cfg c.tuples rfuel [] 0 (.node c.query)
-    s!"res={resStr rw.1}\tref={rvStr ref}\tlim={rw.2.limitHits}\tcalls={rw.2.calls}\tres0={resStr rw0.1}\tlim0={rw0.2.limitHits}\tcalls0={rw0.2.calls}\tconf={if conforms cfg c.tuples then 1 else 0}\tneg={if cfgHasNot c.nss then 1 else 0}\tstrict={if c.strict then 1 else 0}\twf={if wellFormedB cfg c.tuples then 1 else 0}\tqdecl={match astRelationFor cfg c.query.ns c.query.rel with | .rel _ => 1 | _ => 0}"
+    -- C15_calls_bounded: no check of this environment makes more storage operations than this
+    let cbound := checkCallsBound E d
+    s!"cbound={cbound}\tres={resStr rw.1}\tref={rvStr ref}\tlim={rw.2.limitHits}\tcalls={rw.2.calls}\tres0={resStr rw0.1}\tlim0={rw0.2.limitHits}\tcalls0={rw0.2.calls}\tconf={if conforms cfg c.tuples then 1 else 0}\tneg={if cfgHasNot c.nss then 1 else 0}\tstrict={if c.strict then 1 else 0}\twf={if wellFormedB cfg c.tuples then 1 else 0}\tqdecl={match astRelationFor cfg c.query.ns c.query.rel with | .rel _ => 1 | _ => 0}"
 
 end Driver
